@@ -416,6 +416,22 @@ def _r034(ctx: Ctx) -> None:
             break
     ctx.ob('R03.4', site_of(mi, f_to), 'bvector_to_int / int_to_bvector are inverse on all 16 two-qubit vectors', bad is None,
            bad or '', key='bvector_int|roundtrip')
+    # long operators: no fixed-width overflow (n = 40 qubits -> 80 bits)
+    bad = None
+    nn = 40
+    for label, v in (('all ones', [1] * (2 * nn)), ('leading one', [1] + [0] * (2 * nn - 1)),
+                     ('alternating', [i % 2 for i in range(2 * nn)]), ('trailing one', [0] * (2 * nn - 1) + [1])):
+        o = _single(ctx, 'R03.4', mi, f_to, _run_fn(ctx, 'R03.4', mi, f_to, [np.array(v)]))
+        want = int(''.join(map(str, v)), 2)
+        if not (isinstance(o, int) and o == want):
+            bad = f'bvector_to_int({label}, 80 bits) = {o!r}, expected {want}'
+            break
+        back = _aslist(_single(ctx, 'R03.4', mi, f_from, _run_fn(ctx, 'R03.4', mi, f_from, [o, nn])))
+        if back != v:
+            bad = f'int_to_bvector(bvector_to_int({label})) differs from the input on {nn} qubits'
+            break
+    ctx.ob('R03.4', site_of(mi, f_to), 'integer conversion is exact for 40-qubit operators (no fixed-width overflow)', bad is None,
+           bad or '', key='bvector_int|wide')
     bad = None
     o = _single(ctx, 'R03.4', mi, f_tos, _run_fn(ctx, 'R03.4', mi, f_tos, [[np.array(v) for v in vecs]]))
     if o != [int(''.join(map(str, v)), 2) for v in vecs]:
@@ -429,7 +445,7 @@ def _r034(ctx: Ctx) -> None:
 
 
 def run(ctx: Ctx) -> None:
-    ctx.rule('R03.4', 'integer <-> bvector converters are mutually inverse (finite domain)', floor=2)
+    ctx.rule('R03.4', 'integer <-> bvector converters are mutually inverse (finite domain, plus 80-bit vectors)', floor=3)
     ctx.rule('R03.1', 'bs_prod (dense, list, sparse; 1-D/2-D) is the GF(2) symplectic form entry by entry', floor=70)
     ctx.rule('R03.2', 'every Pauli<->bits converter encodes I=(0,0) X=(1,0) Y=(1,1) Z=(0,1)', floor=25)
     ctx.rule('R03.3', 'measure_syndrome is the symplectic product with the parity-check matrix', floor=1)
